@@ -213,3 +213,23 @@ package interp
 //@   opt record-calls = Field
 //@   loop 1 index k
 //@   step field-k-of-the-pointee-when-the-value-is-a-pointer: called(Field) && lastArg(Field, 0) == fi[k] && lastRecv(Field) == ite(rvKind(old(r)) == reflect.Ptr, rvElem(old(r)), old(r))
+
+// Symbols: what the host gets for a script function is a wrapper generated over the interpreter's ROOT
+// frame (the frame whose run id every Execute refreshes), and for a script variable the slot of that
+// frame itself — not a copy or a snapshot, which would keep the run id and the values of the moment
+// Symbols was called.
+//@ lit Interpreter.Symbols case:funcSym () ()
+//@   props C07 C10
+//@   opt safety = off
+//@   opt opaque-calls = *
+//@   opt opaque-havoc = none
+//@   opt apply-guard = arg(0) == interp.frame
+//@   requires [assume] interp != nil && s != nil && syms != nil
+//@   ensures wrapper-recorded-under-the-symbol-name: has(syms, n)
+//@ lit Interpreter.Symbols case:varSym () ()
+//@   props C07 C10
+//@   opt safety = off
+//@   opt opaque-calls = *
+//@   opt opaque-havoc = none
+//@   requires [assume] interp != nil && interp.frame != nil && s != nil && syms != nil
+//@   ensures variable-is-the-slot-of-the-root-frame: has(syms, n) && syms[n] == interp.frame.data[s.index]
